@@ -98,8 +98,66 @@ def _lm_class():
                 assert not aux.is_contiguous() or aux.numel() <= 2
                 return logits, {"s": s_view, "aux": aux}
 
+        class AliasHashLM(HashLM):
+            """the same function of (state, history); what differs is the IDENTITY of what the callbacks hand back (all of it
+            legal: the contract only says `next_` is "a dictionary of tensors representing the updated state"), flags `al`:
+            ret  = "same": the new state is stored INTO the dictionary received and that very dictionary is returned
+                   (prev["s"] = s; return log_probs, prev) | "copy": stored into the argument AND a shallow copy returned |
+                   "fresh": a new dictionary;
+            inplace: the state tensors are overwritten in place (own clones made by update_input, so the caller's tensors are never
+                   touched): dictionary AND tensor identity both say "nothing changed";
+            cache: the logits handed back ARE a state entry ("lp", the same tensor object); checked at the next call: the library
+                   may re-order the state through extract_by_src only, never write into it;
+            xid  : extract_by_src returns its argument itself when src is the identity;
+            upd  = "same" | "copy" (a given initial state is returned as it is / in a new dictionary) | "mutate" (a missing
+                   state is inserted into the dictionary received, which is returned)."""
+
+            def __init__(self, V, M, a, b, c, table, al):
+                super().__init__(V, M, a, b, c, table)
+                self.al = al
+
+            def update_input(self, prev, hist):
+                al = self.al
+                if "s" in prev:
+                    if al.get("inplace"):
+                        return prev if prev.get("own") is not None else dict({k: v.clone() for k, v in prev.items()}, own=torch.tensor(1))
+                    return dict(prev) if al.get("upd") == "copy" else prev
+                new = super().update_input({}, hist)
+                if al.get("inplace"):
+                    new["own"] = torch.tensor(1)
+                if al.get("upd") == "mutate":
+                    prev.update(new)
+                    return prev
+                return new
+
+            def calc_idx_log_probs(self, hist, prev, idx):
+                al = self.al
+                if "lp" in prev:
+                    assert torch.equal(prev["lp"], self.table[prev["s"]]), "test LM: a tensor of the state was written into between calls"
+                logits, nxt = super().calc_idx_log_probs(hist, prev, idx)
+                if al.get("inplace"):
+                    assert prev.get("own") is not None, "test LM: state not initialised by update_input"
+                    prev["s"].copy_(nxt["s"])
+                    prev["aux"].copy_(nxt["aux"])
+                    nxt = {"s": prev["s"], "aux": prev["aux"], "own": prev["own"]}
+                if al.get("cache"):
+                    if al.get("inplace") and "lp" in prev:
+                        prev["lp"].copy_(logits)
+                        logits = prev["lp"]
+                    nxt["lp"] = logits
+                if al.get("ret") == "fresh":
+                    return logits, nxt
+                prev.update(nxt)
+                return logits, (prev if al.get("ret") == "same" else dict(prev))
+
+            def extract_by_src(self, prev, src):
+                if self.al.get("xid") and src.numel() == prev["s"].numel() and torch.equal(src, torch.arange(src.numel())):
+                    return prev
+                return {k: (v if v.dim() == 0 else v.index_select(0, src)) for k, v in prev.items()}
+
         _LM_CLS = HashLM
         _LM_CLS.View = ViewHashLM
+        _LM_CLS.Alias = AliasHashLM
     return _LM_CLS
 
 
@@ -115,9 +173,10 @@ def _slm_class():
         from pydrobert.torch.modules import ExtractableSequentialLanguageModel
 
         class SHashLM(ExtractableSequentialLanguageModel):
-            def __init__(self, V: int, M: int, a: int, b: int, c: int, table: torch.Tensor, cap: int):
+            def __init__(self, V: int, M: int, a: int, b: int, c: int, table: torch.Tensor, cap: int, same_dict: bool = False):
                 super().__init__(V)
                 self.M, self.a, self.b, self.c, self.cap = M, a, b, c, cap
+                self.same_dict = same_dict      # store the new state into the dictionary received and return that dictionary
                 self.register_buffer("table", table)
 
             @torch.jit.export
@@ -143,6 +202,10 @@ def _slm_class():
                     if not bool(((tok >= 0) & (tok < self.vocab_size)).all()):
                         raise RuntimeError("c04-lm-assert: history outside the vocabulary")
                     s = (self.a * s + self.b * tok + self.c) % self.M
+                if self.same_dict:
+                    prev["s"] = s
+                    prev["aux"] = torch.stack([s * 0 + t, s], 1)
+                    return self.table[s], prev
                 return self.table[s], {"s": s, "aux": torch.stack([s * 0 + t, s], 1)}
 
             @torch.jit.export
@@ -200,10 +263,13 @@ def _part_classes():
             counter.  lenient (the base class's recommendation): re-runs update_input defensively - a missing state is
             re-created as the initial one - and re-orders whatever tensors it is handed."""
 
-            def __init__(self, V, M, a, b, c, table, layout, key, strict):
+            def __init__(self, V, M, a, b, c, table, layout, key, strict, alias=None):
                 super().__init__(V)
                 self.M, self.a, self.b, self.c, self.table = M, a, b, c, table
                 self.layout, self.key, self.strict, self.dims = layout, key, strict, LAYOUTS[layout]
+                # alias: "same" = the new state is stored into the dictionary received, which is returned; "copy" = stored
+                # into it and a shallow copy returned; None = a new dictionary (stream lm-aliasing)
+                self.alias = alias
 
             def enc(self, s, t):
                 k, lay = self.key, self.layout
@@ -288,6 +354,9 @@ def _part_classes():
                     tok = hist[t - 1]
                     assert ((tok >= 0) & (tok < self.vocab_size)).all(), "history outside the vocabulary"
                     s = (self.a * s + self.b * tok + self.c) % self.M
+                if self.alias:
+                    prev.update(self.enc(s, t))
+                    return self.table[s], (prev if self.alias == "same" else dict(prev))
                 return self.table[s], self.enc(s, t)
 
             def extract_by_src(self, prev, src):
@@ -444,10 +513,12 @@ def _build_fused(case):
             lms.append(_make_lookup(V, p))
         elif p["kind"] == "ctx":
             lms.append(CtxLM(V, tab, p.get("step_key")))
+        elif p["kind"] == "hash" and p.get("al"):
+            lms.append(_lm_class().Alias(V, p["M"], p["a"], p["b"], p["c"], tab, p["al"]))
         elif p["kind"] == "hash":
             lms.append(_lm_class()(V, p["M"], p["a"], p["b"], p["c"], tab))
         else:
-            lms.append(PartLM(V, p["M"], p["a"], p["b"], p["c"], tab, p["layout"], p["key"], p["strict"]))
+            lms.append(PartLM(V, p["M"], p["a"], p["b"], p["c"], tab, p["layout"], p["key"], p["strict"], p.get("alias")))
 
     def build(node):
         if isinstance(node, int):
@@ -587,11 +658,16 @@ def _search_once(case, inits, N):
             raise _HarnessError("fused case carries the wrong dtype")
         lm = None
     elif via == "script":
-        lm = _slm_class()(*args, CAP)
+        lm = _slm_class()(*args, CAP, (case.get("alias") or {}).get("ret") == "same")
     elif via == "views":
         lm = _lm_class().View(*args)
+    elif case.get("alias"):
+        # stream lm-aliasing: the same function, other IDENTITY of the dictionaries / tensors the callbacks hand back
+        lm = _lm_class().Alias(*args, case["alias"])
     else:
         lm = _lm_class()(*args)
+    aliasing = bool(case.get("alias")) or (via == "fused" and any(p.get("alias") or p.get("al") for p in case["fuse"]["parts"]))
+    saved = []
     try:
         if via == "fused":
             lm, parts = _build_fused(case)
@@ -606,11 +682,17 @@ def _search_once(case, inits, N):
                 bs(_init_state([(x + 1) % case["M"] for x in (list(inits) * oN)[:oN]], None), oN, omi)
             except Exception:  # noqa: BLE001
                 pass
-            first = bs(init, N, case["max_iters"])
-        y, lens, lp = _call(bs, case, init, N, case["max_iters"])
+            # (an aliasing LM may store its state into the dictionary it is given: every call gets its own dictionary)
+            first = bs(dict(init) if aliasing else init, N, case["max_iters"])
+        saved = [(k, v, v.clone()) for k, v in init.items()]
+        y, lens, lp = _call(bs, case, dict(init) if aliasing else init, N, case["max_iters"])
         if via == "reuse":
             if not (_valid_equal(first[0], first[1], y, lens) and torch.equal(first[2], lp)):
                 return {"exc": "HistoryDependent", "msg": "two calls of one module object with the same arguments differ"}
+        for k, v, v0 in saved:
+            # no test LM writes into the tensors the caller handed in (the in-place one works on its own clones)
+            if v.shape != v0.shape or not torch.equal(v, v0):
+                return {"exc": "InitialStateModified", "msg": "the caller's initial_state tensor %r was overwritten" % k}
     except _HarnessError:
         raise
     except _Watchdog:
@@ -1277,6 +1359,87 @@ def gen_staggered(rng):
     return c
 
 
+ALIAS_VIAS = (None, None, None, None, "kw", "reuse", "noinit", "script")
+
+
+def _gen_al(rng):
+    al = {"ret": rng.choice(["same", "same", "same", "copy", "fresh"]), "upd": rng.choice(["same", "copy", "mutate"])}
+    for k, p in (("inplace", 0.3), ("cache", 0.3), ("xid", 0.3)):
+        if rng.random() < p:
+            al[k] = True
+    return al
+
+
+def gen_alias(rng):
+    """callback result / argument aliasing: the language model computes the SAME function of (state, history) as in the other
+    streams - same logical input, same model term - but the dictionaries / tensors its callbacks hand back to BeamSearch are
+    the very objects they received: the new state stored into the `prev` dictionary that was passed in and that dictionary
+    returned (or a shallow copy of it), state tensors overwritten in place, the logits also kept as a state entry,
+    extract_by_src returning its argument for an identity src, update_input filling the dictionary it was given.  Plain hash
+    LM (eager module, keyword call, module object used before, initial_state omitted, torch.jit.script over the scripted
+    twin) and the library's shallow-fusion wrappers over such parts; batches whose elements finish at different steps."""
+    if rng.random() < 0.4:
+        for _ in range(200):
+            c = gen_fused(rng)
+            st = [p for p in c["fuse"]["parts"] if p["kind"] in ("rec", "hash")]
+            if st:
+                break
+        else:
+            raise _HarnessError("gen_alias: no fusion with a stateful part")
+        for j, p in enumerate(st):
+            on = j == 0 or rng.random() < 0.6
+            if p["kind"] == "rec":
+                p["alias"] = rng.choice(["same", "same", "copy"]) if on else None
+            elif on:
+                p["al"] = _gen_al(rng)
+        if rng.random() < 0.5:
+            c["width"] = max(c["width"], 2)
+        return c
+    stag = rng.random() < 0.3
+    c = gen_staggered(rng) if stag else gen_search(rng)
+    c.pop("form", None)
+    c.pop("via", None)
+    via = rng.choice(ALIAS_VIAS)
+    if rng.random() < 0.5:
+        # room for the state to matter: several slots, several steps
+        c["width"] = max(c["width"], rng.choice([2, 2, 3]))
+        if c["max_iters"] is not None and c["max_iters"] < 3:
+            c["max_iters"] = rng.choice([3, 4, 4, 5])
+            if c["V"] ** c["max_iters"] > 300:
+                c["width"] = min(c["width"], 8)
+            if c["N"] == 0 and c["eos"] is None:
+                c["N"], c["inits"] = 2, [rng.randrange(c["M"]) for _ in range(2)]
+    if via == "noinit" and not stag:
+        c["inits"] = [0] * len(c["inits"])
+    elif via == "noinit":
+        via = None
+    c["alias"] = _gen_al(rng)
+    if via == "script":
+        c["alias"] = {"ret": c["alias"]["ret"] if c["alias"]["ret"] != "copy" else "same"}
+    if via is not None:
+        c["via"], c["form"] = via, rng.randrange(12)
+    return c
+
+
+def alias_counts(chk, c, r):
+    als = [c["alias"]] if c.get("alias") else []
+    if c.get("via") == "fused":
+        als += [p["al"] for p in c["fuse"]["parts"] if p.get("al")]
+        als += [{"ret": p["alias"]} for p in c["fuse"]["parts"] if p.get("alias")]
+    if not als:
+        return
+    chk.count("alias:lm=%s" % ("fusion" if c.get("via") == "fused" else "scripted" if c.get("via") == "script" else "plain"))
+    for al in als:
+        chk.count("alias:ret=%s" % al.get("ret"))
+        for k in ("inplace", "cache", "xid"):
+            if al.get(k):
+                chk.count("alias:%s" % k)
+        if "upd" in al:
+            chk.count("alias:upd=%s" % al["upd"])
+    if "out" in r and r["S"] >= 3 and c["width"] > 1:
+        chk.count("alias:width>1,steps>=3" + (",batched" if (c["N"] or 0) > 1 else ""))
+
+
 def situation_counts(chk, c, r):
     """histogram of the situations the independent reviews singled out, read off the implementation's answer"""
     if "out" not in r or c["eos"] is None:
@@ -1496,6 +1659,7 @@ def run_search_cases(chk, cases, meta_budget):
         chk.count("search:dtype=%s" % c.get("dtype", "float64"))
         chk.count("search:via=%s" % c.get("via", "module"))
         situation_counts(chk, c, r)
+        alias_counts(chk, c, r)
         if c.get("via") == "fused":
             fused_counts(chk, c)
             chk.count("fused:outcome=" + ("skipped_near_tie" if tied and "exc" not in r else "compared"))
@@ -1751,7 +1915,13 @@ def run(chk, cases=None):
                 "LM, test doubles with state under other key names, batch dimension 0 / 1 / last / none, one or two tensors, stateless, "
                 "strict or re-initialising), initial state of each part given or left to update_input; every part is a state machine "
                 "over Z_Mi with pairwise coprime Mi, so the logical input handed to the model is the product machine over Z_(prod Mi) "
-                "(Chinese remainders) with table = sum of coef_i * table_i - same model term, log-probabilities chained afresh")
+                "(Chinese remainders) with table = sum of coef_i * table_i - same model term, log-probabilities chained afresh. "
+                "lm-aliasing stream: the same logical language models, but the callbacks hand back the very objects they received: "
+                "the new state stored into the `prev` dictionary passed in and that dictionary (or a shallow copy) returned, state "
+                "tensors overwritten in place, the logits also kept as a state entry, extract_by_src returning its argument for an "
+                "identity src, update_input filling the dictionary it was given; plain hash LM (eager, keyword call, module used "
+                "before, initial_state omitted, scripted twin) and shallow fusions over such parts - same model term; the caller's "
+                "initial_state tensors must be left as they were")
     chk.assumptions += [
         "the test LM's rows of log-probabilities are torch's float64 log_softmax of its logits, handed to the model exactly; "
         "sums are compared with tolerance 1e-9 (regime T), decisions kept at margin 1e-6",
@@ -1801,6 +1971,7 @@ def run(chk, cases=None):
     rnd += [dict(gen_variant(chk.rng), stream="entry-layout-history") for _ in range(3000 if thorough else 200)]
     rnd += [dict(gen_staggered(chk.rng), stream="staggered-batch") for _ in range(2500 if thorough else 150)]
     rnd += [dict(gen_fused(chk.rng), stream="fused-lm") for _ in range(3000 if thorough else 240)]
+    rnd += [dict(gen_alias(chk.rng), stream="lm-aliasing") for _ in range(3000 if thorough else 220)]
     allc = ex + [c for c in corpus if c.get("kind") == "search"] + rnd
     streams = [c.get("stream", "random") for c in allc]
     results = run_search_cases(chk, allc, meta_budget=(3000 if thorough else 150))
@@ -1812,6 +1983,8 @@ def run(chk, cases=None):
         c.pop("stream", None)
         chk.note_case(c, c["width"] < c["Kp"] * c["V"] and c["S"] > 0, "advance")
     run_adv_cases(chk, adv)
+    from props.c04_tie import source_tieB      # second source tie (BeamSearch.forward blocks), see props/c04_tie.py
+    source_tieB(chk, allc, results)
 
 
 def replay(chk, path):
